@@ -317,8 +317,7 @@ def post_eq(ctx, call):
 def install(ctx):
     import geometer.shapes as Sh
 
-    core.wrap_method(Sh.PolygonTensor, "area", post_area)
-    core.wrap_method(Sh.Polyhedron, "area", post_area)
+    core.wrap_method_everywhere(Sh.PolytopeTensor, "area", post_area)  # PolygonTensor.area, Polyhedron.area and any override
     core.wrap_method(Sh.Polygon, "centroid", post_centroid)
     core.wrap_method(Sh.Simplex, "volume", post_volume)
     core.wrap_method(Sh.SegmentTensor, "length", post_length)
@@ -461,6 +460,18 @@ def g_polygons(ctx, rng, i):
         if pc22 is not None:
             _try(lambda: pc22 == g.PolygonCollection(np.flip(pc22.array, axis=-2)))
             _try(lambda: pc22 == g.PolygonCollection(np.flip(pc22.array, axis=0)))
+    # quadrilaterals that reach the class Rectangle through the library (elements of a collection, faces of a solid, images under a shear)
+    if n == 4:
+        shear = g.Transformation(np.array([[1, gen.pick(rng, [1, 2, -1]), 0], [0, 1, 0], [0, 0, 1]]) if dim == 2 else np.array([[1, 1, 0, 0], [0, 1, 0, 0], [0, 2, 1, 0], [0, 0, 0, 1]]))
+        rect = _try(g.Rectangle, g.Point(*([0] * dim)), g.Point(*([3] + [0] * (dim - 1))), g.Point(*([3, 2] + [0] * (dim - 2))), g.Point(*([0, 2] + [0] * (dim - 2))))
+        if rect is not None:
+            sheared = _try(lambda: shear * rect)
+            if sheared is not None:
+                _try(lambda: sheared.area)
+        if pc is not None:
+            for el in (_try(lambda: pc[0]), _try(lambda: pc[1]), *( _try(lambda: list(pc)) or [])):
+                if el is not None and hasattr(el, "area"):
+                    _try(lambda: el.area)
     # segment collections: the same segments with their end points swapped / listed in the opposite order
     sa = np.stack([np.array(H[:2]), np.array([np.append(v, 1) for v in V2[:2]]), np.array([np.append(v, 1) for v in V3[:2]])])
     sc = _try(g.SegmentCollection, sa)
@@ -551,6 +562,22 @@ def g_solids(ctx, rng, i):
     # faces in another order: equal
     perm = rng.permutation(6)
     other = _try(g.Polyhedron, *[g.Polygon(cube.array[k]) for k in perm]) if False else None
+    # a frustum (square base, smaller square top): its side faces are trapezia; the area of every face object the solid hands out
+    if i % 2 == 1:
+        b_, t_, h_ = int(rng.integers(3, 6)), int(rng.integers(1, 3)), int(rng.integers(1, 4))
+        oo = gen.coords(rng, (3,), 3, "int")
+        base = [oo + np.array(v) for v in ([0, 0, 0], [b_, 0, 0], [b_, b_, 0], [0, b_, 0])]
+        dd = (b_ - t_) // 2
+        top = [oo + np.array(v) for v in ([dd, dd, h_], [dd + t_, dd, h_], [dd + t_, dd + t_, h_], [dd, dd + t_, h_])]
+        P4 = lambda vs: g.Polygon(*[g.Point(*v.tolist()) for v in vs])  # noqa: E731
+        fr = _try(lambda: g.Polyhedron(P4(base), P4(top), *[P4([base[j], base[(j + 1) % 4], top[(j + 1) % 4], top[j]]) for j in range(4)]))
+        if fr is not None:
+            _try(lambda: fr.area)
+            for face in (_try(lambda: list(fr.faces)) or []):
+                _try(lambda: face.area)
+            f0 = _try(lambda: fr.faces[2])
+            if f0 is not None:
+                _try(lambda: f0.area)
     # regular polygons anywhere
     n = int(rng.integers(3, 9))
     r = float(gen.pick(rng, [1, 2, 0.5, 3.5]))
